@@ -119,6 +119,9 @@ def make(rng, kind, d=2):
             dims = [[0, 1], [1, 2], [2, 0, 1], [0, 2], np.array([True, False, True]), [True, True, False], np.array([2, 0])][rng.integers(0, 7)]
         else:
             dims = [[1, 0], [0, 1], [0], np.array([False, True]), [True, True]][rng.integers(0, 5)]
+        if rng.random() < 0.4:
+            # selectors relative to the width of whatever they are applied to
+            dims = [-1, slice(1, None), [-2, -1], slice(None, None, -1), slice(0, 2), [0, -1]][rng.integers(0, 6)]
         return mt.WithDims(dims), (lambda: mt.WithDims(dims))
     if kind == "ChainWithIdentityMember":
         # a chain one of whose members does nothing (an init_identity seed, an alignment of a shape with itself)
